@@ -104,6 +104,7 @@ class C04(core.Check):
             'edges); expectation from interval arithmetic on the model ranges. distinct_nontrivial = distinct (sorted pair '
             'geometries, placement means, source-order class) tuples. thorough: all pairs with start 0..6, length 0..3, both '
             'source orders (exhaustive) and sampled triples.')
+    rule = rule + ' ' + 'Embedded strings with literal 2- and 3-byte characters are probed with a byte on every address around them.'
     assumptions = ('a zero-length line strictly inside another line, and overlaps involving a muted line, are DONT_CARE',)
     chunk = 1500
     required_buckets = {b: 3 for b in ['geom:gap', 'geom:touching', 'geom:overlap-1-byte', 'geom:overlap-many',
